@@ -7,7 +7,8 @@
 
        shape (m_apply d m) = unqual (type_of T d)        whenever shape m = unqual T
 
-   for every declarator with bounds below 2^31; parameters included (their adjusted types, 6.7.6.3p7-8). *)
+   for every declarator that passes parse.c's "array too large" tests ([chk]); parameters included (their
+   adjusted types, 6.7.6.3p7-8).  So declarator() either reports "array too large" or returns the C11 type. *)
 From Coq Require Import List ZArith Bool Lia.
 From Chibicc Require Import Spec.DeclSyntax Spec.DeclSpec6_7_6 Model.Declarator Proofs.DeclaratorParse.
 Import ListNotations.
@@ -50,21 +51,31 @@ Proof.
   - cbn [shape unqual] in *. rewrite H. reflexivity.
 Qed.
 
+(* a bound that passes the "array too large" test fits in a C int *)
+Lemma too_large_bound : forall k e, too_large k e = false -> k <= 2147483647.
+Proof.
+  intros k e H. unfold too_large in H. rewrite Z.gtb_ltb in H. apply Z.ltb_ge in H.
+  assert (1 <= Z.max (ty_size e) 1) by lia.
+  assert (2147483647 / Z.max (ty_size e) 1 <= 2147483647).
+  { apply Z.div_le_upper_bound; nia. }
+  lia.
+Qed.
+
 Definition T_decl (d : decl) : Prop :=
-  c11_ok d = true -> chibicc_ok d = true ->
-  forall m T, shape m = unqual T -> shape (m_apply d m) = unqual (apply_dtl (dtl d) T).
+  c11_ok d = true ->
+  forall m T, chk d m = true -> shape m = unqual T -> shape (m_apply d m) = unqual (apply_dtl (dtl d) T).
 Definition T_dd (dd : direct) : Prop :=
-  c11_ok_dd dd = true -> chibicc_ok_dd dd = true ->
-  forall m T, shape m = unqual T -> shape (m_apply_dd dd m) = unqual (apply_dtl (dtl_dd dd) T).
+  c11_ok_dd dd = true ->
+  forall m T, chk_dd dd m = true -> shape m = unqual T -> shape (m_apply_dd dd m) = unqual (apply_dtl (dtl_dd dd) T).
 Definition T_params (ps : params) : Prop :=
-  c11_ok_params ps = true -> chibicc_ok_params ps = true ->
+  c11_ok_params ps = true -> chk_params ps = true ->
   map (fun p => shape (snd p)) (m_params ps) = map unqual (param_types ps) /\
   fkind_of (is_nil (m_params ps)) (m_variadic ps) = kind_of ps.
 Definition T_plist (l : plist) : Prop :=
-  c11_ok_plist l = true -> chibicc_ok_plist l = true ->
+  c11_ok_plist l = true -> chk_plist l = true ->
   map (fun p => shape (snd p)) (m_plist l) = map unqual (plist_types l) /\ m_plist l <> [].
 Definition T_param (p : param) : Prop :=
-  c11_ok_param p = true -> chibicc_ok_param p = true ->
+  c11_ok_param p = true -> chk_param p = true ->
   shape (snd (m_param p)) = unqual (param_type p).
 
 Theorem types_all :
@@ -73,97 +84,104 @@ Theorem types_all :
 Proof.
   apply decl_mutind.
   - (* DPtr *)
-    intros q d IH Hc Hp m T H. cbn [c11_ok chibicc_ok m_apply dtl] in *.
+    intros q d IH Hc m T Hk H. cbn [c11_ok chk m_apply dtl] in *.
     rewrite apply_dtl_snoc. apply IH; try assumption. cbn [derive shape unqual]. rewrite H. reflexivity.
   - (* DDirect *)
-    intros dd IH Hc Hp m T H. cbn [c11_ok chibicc_ok m_apply dtl] in *. apply IH; assumption.
+    intros dd IH Hc m T Hk H. cbn [c11_ok chk m_apply dtl] in *. apply IH; assumption.
   - (* DIdent *)
-    intros x _ _ m T H. exact H.
+    intros x _ m T _ H. exact H.
   - (* DParen *)
-    intros d IH Hc Hp m T H. cbn [c11_ok_dd chibicc_ok_dd m_apply_dd dtl_dd] in *.
-    apply andb_prop in Hc. destruct Hc as [_ Hc]. apply IH; assumption.
+    intros d IH Hc m T Hk H. cbn [c11_ok_dd chk_dd m_apply_dd dtl_dd] in *.
+    apply andb_prop in Hc. destruct Hc as [_ Hc]. apply andb_prop in Hk. destruct Hk as [_ Hk]. apply IH; assumption.
   - (* DArray *)
-    intros dd' IH n Hc Hp m T H. cbn [c11_ok_dd chibicc_ok_dd m_apply_dd dtl_dd] in *.
+    intros dd' IH n Hc m T Hk H. cbn [c11_ok_dd chk_dd m_apply_dd dtl_dd] in *.
     apply andb_prop in Hc. destruct Hc as [Hc Hn0]. apply andb_prop in Hc. destruct Hc as [_ Hc].
-    apply andb_prop in Hp. destruct Hp as [Hp Hn1].
+    apply andb_prop in Hk. destruct Hk as [Hfit Hk].
     rewrite apply_dtl_snoc. apply IH; try assumption.
     cbn [derive unqual]. unfold array_of. cbn [shape]. rewrite H. f_equal.
     destruct n as [k|]; cbn [len_of]; [|reflexivity].
-    apply Z.leb_le in Hn0. apply Z.ltb_lt in Hn1. rewrite int32_id by lia.
+    cbn [fit] in Hfit. apply negb_true_iff in Hfit. apply too_large_bound in Hfit.
+    apply Z.leb_le in Hn0. rewrite int32_id by lia.
     destruct (k <? 0) eqn:E; [apply Z.ltb_lt in E; lia|reflexivity].
   - (* DFunc *)
-    intros dd' IH ps IHps Hc Hp m T H. cbn [c11_ok_dd chibicc_ok_dd m_apply_dd dtl_dd] in *.
+    intros dd' IH ps IHps Hc m T Hk H. cbn [c11_ok_dd chk_dd m_apply_dd dtl_dd] in *.
     apply andb_prop in Hc. destruct Hc as [Hc Hcps]. apply andb_prop in Hc. destruct Hc as [_ Hc].
-    apply andb_prop in Hp. destruct Hp as [Hp Hpps]. apply andb_prop in Hp. destruct Hp as [_ Hp].
+    apply andb_prop in Hk. destruct Hk as [Hkps Hk].
     rewrite apply_dtl_snoc. apply IH; try assumption.
-    destruct (IHps Hcps Hpps) as [E1 E2]. cbn [derive unqual shape]. rewrite H, E1, E2. reflexivity.
+    destruct (IHps Hcps Hkps) as [E1 E2]. cbn [derive unqual shape]. rewrite H, E1, E2. reflexivity.
   - (* PUnspec *) intros _ _. split; reflexivity.
   - (* PVoid *) intros _ _. split; reflexivity.
   - (* PList *)
-    intros l IH v Hc Hp. cbn [c11_ok_params chibicc_ok_params m_params param_types m_variadic kind_of] in *.
-    destruct (IH Hc Hp) as [E Hne]. split; [exact E|].
+    intros l IH v Hc Hk. cbn [c11_ok_params chk_params m_params param_types m_variadic kind_of] in *.
+    destruct (IH Hc Hk) as [E Hne]. split; [exact E|].
     destruct (m_plist l) as [|a r]; [congruence|]. destruct v; reflexivity.
   - (* POne *)
-    intros p IH Hc Hp. cbn [c11_ok_plist chibicc_ok_plist m_plist plist_types map] in *.
-    split; [|discriminate]. rewrite (IH Hc Hp). reflexivity.
+    intros p IH Hc Hk. cbn [c11_ok_plist chk_plist m_plist plist_types map] in *.
+    split; [|discriminate]. rewrite (IH Hc Hk). reflexivity.
   - (* PCons *)
-    intros p IH l IHl Hc Hp. cbn [c11_ok_plist chibicc_ok_plist m_plist plist_types map] in *.
-    apply andb_prop in Hc. destruct Hc as [Hc Hcl]. apply andb_prop in Hp. destruct Hp as [Hp Hpl].
-    split; [|discriminate]. rewrite (IH Hc Hp), (proj1 (IHl Hcl Hpl)). reflexivity.
+    intros p IH l IHl Hc Hk. cbn [c11_ok_plist chk_plist m_plist plist_types map] in *.
+    apply andb_prop in Hc. destruct Hc as [Hc Hcl]. apply andb_prop in Hk. destruct Hk as [Hk Hkl].
+    split; [|discriminate]. rewrite (IH Hc Hk), (proj1 (IHl Hcl Hkl)). reflexivity.
   - (* Param *)
-    intros b d IH Hc Hp. cbn [c11_ok_param chibicc_ok_param m_param param_type snd] in *.
+    intros b d IH Hc Hk. cbn [c11_ok_param chk_param m_param param_type snd] in *.
     apply andb_prop in Hc. destruct Hc as [Hc _].
     apply shape_adjust. apply IH; try assumption. reflexivity.
 Qed.
 
-Theorem m_apply_is_c11_type : forall d m T, c11_ok d = true -> chibicc_ok d = true ->
+Theorem m_apply_is_c11_type : forall d m T, c11_ok d = true -> chk d m = true ->
   shape m = unqual T -> shape (m_apply d m) = unqual (type_of T d).
-Proof. intros d m T Hc Hp H. unfold type_of. apply (proj1 types_all); assumption. Qed.
+Proof. intros d m T Hc Hk H. unfold type_of. apply (proj1 types_all); assumption. Qed.
 
 (* the parameters of a parameter list: names and adjusted types *)
-Theorem m_params_are_adjusted : forall ps, c11_ok_params ps = true -> chibicc_ok_params ps = true ->
+Theorem m_params_are_adjusted : forall ps, c11_ok_params ps = true -> chk_params ps = true ->
   map (fun p => shape (snd p)) (m_params ps) = map unqual (param_types ps).
-Proof. intros ps Hc Hp. exact (proj1 (proj1 (proj2 (proj2 types_all)) ps Hc Hp)). Qed.
+Proof. intros ps Hc Hk. exact (proj1 (proj1 (proj2 (proj2 types_all)) ps Hc Hk)). Qed.
 
-(* ------------------------------------------------------------------ parser and C11 type together *)
+(* ------------------------------------------------------------------ parser and C11 type together:
+   "array too large", or the C11 type *)
 Theorem declarator_is_c11 : forall d m T rest,
-  c11_ok d = true -> chibicc_ok d = true -> stops rest -> shape m = unqual T ->
+  c11_ok d = true -> stops rest -> shape m = unqual T ->
+  parse_declarator (print_decl d ++ rest) m = TooLarge \/
   exists m', parse_declarator (print_decl d ++ rest) m = Ok (name_of d, m', rest) /\
              shape m' = unqual (type_of T d).
 Proof.
-  intros d m T rest Hc Hp Hs H. exists (m_apply d m). split.
-  - apply parse_declarator_print; assumption.
-  - apply m_apply_is_c11_type; assumption.
+  intros d m T rest Hc Hs H. rewrite parse_declarator_print by assumption.
+  destruct (chk d m) eqn:Hk; [right|left; reflexivity].
+  exists (m_apply d m). split; [reflexivity|]. apply m_apply_is_c11_type; assumption.
 Qed.
 
 Theorem abstract_declarator_is_c11 : forall d m T rest,
-  c11_ok d = true -> chibicc_ok d = true -> name_of d = None -> stops rest -> shape m = unqual T ->
+  c11_ok d = true -> name_of d = None -> stops rest -> shape m = unqual T ->
+  parse_abstract (print_decl d ++ rest) m = TooLarge \/
   exists m', parse_abstract (print_decl d ++ rest) m = Ok (m', rest) /\
              shape m' = unqual (type_of T d).
 Proof.
-  intros d m T rest Hc Hp Hn Hs H. exists (m_apply d m). split.
-  - apply parse_abstract_print; assumption.
-  - apply m_apply_is_c11_type; assumption.
+  intros d m T rest Hc Hn Hs H. rewrite parse_abstract_print by assumption.
+  destruct (chk d m) eqn:Hk; [right|left; reflexivity].
+  exists (m_apply d m). split; [reflexivity|]. apply m_apply_is_c11_type; assumption.
 Qed.
 
 Theorem typename_is_c11 : forall b d rest,
-  c11_ok d = true -> chibicc_ok d = true -> name_of d = None -> stops rest ->
+  c11_ok d = true -> name_of d = None -> stops rest ->
+  parse_typename (TBase b :: print_decl d ++ rest) = TooLarge \/
   exists m', parse_typename (TBase b :: print_decl d ++ rest) = Ok (m', rest) /\
              shape m' = unqual (type_of (TLeaf b) d).
 Proof.
-  intros b d rest Hc Hp Hn Hs. exists (m_apply d (MBase b)). split.
-  - apply parse_typename_print; assumption.
-  - apply m_apply_is_c11_type; try assumption. reflexivity.
+  intros b d rest Hc Hn Hs. rewrite parse_typename_print by assumption.
+  destruct (chk d (MBase b)) eqn:Hk; [right|left; reflexivity].
+  exists (m_apply d (MBase b)). split; [reflexivity|]. apply m_apply_is_c11_type; try assumption. reflexivity.
 Qed.
 
 (* a parameter list in a function declarator: every parameter gets its name and its ADJUSTED C11 type *)
 Theorem func_params_is_c11 : forall ps ret rest,
-  c11_ok_params ps = true -> chibicc_ok_params ps = true ->
+  c11_ok_params ps = true ->
+  func_params (cost_params ps) (print_params ps ++ TRParen :: rest) ret = TooLarge \/
   exists pl v, func_params (cost_params ps) (print_params ps ++ TRParen :: rest) ret = Ok (MFunc ret pl v, rest) /\
     map (fun p => shape (snd p)) pl = map unqual (param_types ps) /\
     fkind_of (is_nil pl) v = kind_of ps.
 Proof.
-  intros ps ret rest Hc Hp. exists (m_params ps), (m_variadic ps). split.
-  - apply func_params_print; auto.
-  - exact (proj1 (proj2 (proj2 types_all)) ps Hc Hp).
+  intros ps ret rest Hc. rewrite func_params_print by auto.
+  destruct (chk_params ps) eqn:Hk; [right|left; reflexivity].
+  exists (m_params ps), (m_variadic ps). split; [reflexivity|].
+  exact (proj1 (proj2 (proj2 types_all)) ps Hc Hk).
 Qed.
